@@ -290,6 +290,77 @@ pub fn float_array(rng: &mut Rng, dt: &DataType, n: usize) -> (ArrayRef, &'stati
 }
 
 pub fn bytes_values(rng: &mut Rng, n: usize) -> (Vec<Vec<u8>>, &'static str) {
+    if rng.chance(1, 4) {
+        // "every token is a symbol" corpus (same idea as k28.rs symtok): 32 tokens of 8 (4..7) bytes, every byte value
+        // in exactly one token, two frequency tiers + one least frequent token, most values end with a proper
+        // prefix of their last token
+        let l = if rng.chance(17, 20) { 8 } else { rng.urange(5, 7) };
+        let mut perm: Vec<u8> = (0..=255u8).collect();
+        rng.shuffle(&mut perm);
+        let mut tokens: Vec<Vec<u8>> = (0..32).map(|t| perm[t * l..(t + 1) * l].to_vec()).collect();
+        let fillers: Vec<Vec<u8>> = perm[32 * l..].chunks(8).map(|c| c.to_vec()).collect();
+        let hi_w = *rng.pick(&[4.0f64, 5.0]);
+        let n_hi = *rng.pick(&[12usize, 12, 16, 16, 20]);
+        let r_idx = n_hi + rng.usize_below(32 - n_hi);
+        let p = if rng.chance(1, 2) { l - 1 } else { rng.usize_below(l) };
+        let mut cum = vec![];
+        let mut acc = 0.0;
+        for t in 0..32 {
+            acc += if t == r_idx { 0.85 } else if t < n_hi { hi_w } else { 1.0 };
+            cum.push(acc);
+        }
+        for _ in &fillers {
+            acc += hi_w;
+            cum.push(acc);
+        }
+        tokens.extend(fillers.iter().cloned());
+        let cut_share = *rng.pick(&[3u64, 5, 8]);
+        let trail0 = rng.below(3);
+        let mut v: Vec<Vec<u8>> = Vec::with_capacity(n);
+        let mut r_uses = 0;
+        // mini-block keeps values < 256 bytes: 1..30 tokens; the value count n decides the total size
+        for _ in 0..n {
+            let nt = rng.urange(1, 30);
+            let mut rec = vec![];
+            let mut last_len = 0;
+            let mut last_tok = 0;
+            for _ in 0..nt {
+                let x = rng.f64() * acc;
+                let t = cum.partition_point(|c| *c < x).min(tokens.len() - 1);
+                if t == r_idx {
+                    r_uses += 1;
+                }
+                rec.extend_from_slice(&tokens[t]);
+                last_len = tokens[t].len();
+                last_tok = t;
+            }
+            if rng.below(10) < cut_share && last_len > 1 && (last_tok >= n_hi || rng.chance(1, 3)) {
+                // every cut position; a value whose last token is the rare one ends right before the rare byte
+                let cut = if last_tok == r_idx && p > 0 && rng.bool() { last_len - p } else { rng.urange(1, last_len - 1) };
+                rec.truncate(rec.len() - cut);
+            }
+            if trail0 > 0 && rng.chance(trail0, 4) {
+                rec.push(0x00);
+            }
+            v.push(rec);
+        }
+        // boost the other bytes of the rare token (single-byte values) so that position p holds the rarest byte
+        let boost = (r_uses / 2).max(3).min(n / 4);
+        let rt = tokens[r_idx].clone();
+        let mut slot = 0;
+        for (j, b) in rt.iter().enumerate() {
+            if j > p {
+                for _ in 0..boost {
+                    if slot < v.len() {
+                        v[slot] = vec![*b];
+                        slot += 1;
+                    }
+                }
+            }
+        }
+        rng.shuffle(&mut v);
+        return (v, "symtok");
+    }
     let pat = if rng.chance(1, 3) { "tokens" } else { *rng.pick(&["text", "random", "empty_mix", "all_same", "long", "tiny", "all_empty", "ff_heavy", "one_big"]) };
     if pat == "tokens" {
         // structured binary corpus (see k28.rs): multi-byte tokens covering all 256 byte values, Zipf frequencies,
@@ -444,8 +515,8 @@ pub fn gen_array(rng: &mut Rng, class: &'static str, n: usize) -> Gen {
             let (v, p) = bytes_values(rng, n);
             // the token corpora must keep their raw bytes (all 256 values): binary types only
             let dt = match (p, &dt) {
-                ("tokens", DataType::Utf8) => DataType::Binary,
-                ("tokens", DataType::LargeUtf8) => DataType::LargeBinary,
+                ("tokens" | "symtok", DataType::Utf8) => DataType::Binary,
+                ("tokens" | "symtok", DataType::LargeUtf8) => DataType::LargeBinary,
                 _ => dt,
             };
             let ascii = matches!(p, "text" | "empty_mix" | "all_same" | "long" | "all_empty" | "one_big");
@@ -828,6 +899,8 @@ pub fn direct_case(seed: u64, i: u64, ffi: bool) -> (Rng, DirectCase) {
     let mut n = pick_n(&mut rng);
     if class == "var" && rng.chance(1, 2) {
         n = n.max(3000); // enough bytes for FSST / general compression thresholds
+    } else if class == "var" && rng.chance(2, 3) {
+        n = n.max(600); // token corpora (~100 bytes per value) reach the 32 KiB FSST threshold
     }
     if !ffi {
         // interpreted (Miri): small blocks only; 2.2 would pick ZSTD (C code) for blocks over 32 KiB and for
